@@ -136,6 +136,7 @@ def sweep(tier, seed=0):
             break
     out.append(_rep("RepartitionToMore._nsplits/_layer (extracted source, graph interpreted on a row model)", {"old <": 12 if tier == "quick" else 30}, cases, fails, t0, {"old": 4, "new": 6}))
     out.append(size_sweep(tier, seed))
+    out.append(pandas_helpers_sweep(tier, seed))
     out.append(divisions_sweep(tier))
     return out
 
@@ -329,3 +330,55 @@ def replay(native):
             msg = repr(e)
         return {"reproduced": True, "detail": msg} if msg else None
     return {"reproduced": "rerun ./check C44 --tier quick"}
+
+
+def pandas_helpers_sweep(tier, seed=0):
+    """The two pandas-level helpers every repartition graph is made of, run on small frames (pandas is available even
+    though dask.dataframe is not importable): split_evenly(df, k) cuts df into k consecutive pieces that concatenate
+    to df; boundary_slice(df, lo, hi, right_boundary) keeps exactly the rows with lo <= index < hi (<= hi when
+    right_boundary), duplicated index values included."""
+    import numpy as np
+    import pandas as pd
+
+    t0 = time.time()
+    cases, fails = 0, []
+    split = srcexec.load("dask/dataframe/core.py", "split_evenly", {"np": np, "pd": pd})
+    for n in list(range(0, 70)) + [97, 128, 200, 311, 1000, 1999]:
+        df = pd.DataFrame({"x": np.arange(n)})
+        for k in range(1, 41 if tier == "quick" else 64):
+            cases += 1
+            try:
+                parts = split(df, k)
+                got = [v for i in range(k) for v in parts[i]["x"].tolist()]
+                msg = None
+                if sorted(parts) != list(range(k)):
+                    msg = f"split_evenly(len {n}, {k}) returns pieces {sorted(parts)[:5]}.."
+                elif got != list(range(n)):
+                    msg = f"split_evenly(len {n}, {k}): the pieces hold {len(got)} rows, the frame has {n} (same order: {got == list(range(n))})"
+            except Exception as e:  # noqa
+                msg = f"{type(e).__name__}: {e}"
+            if msg and len(fails) < 4:
+                fails.append(rtc.Failure("split_evenly", {"n": n, "k": k}, "ensures", "C44-rows-and-order", msg))
+    bslice = srcexec.load("dask/dataframe/methods.py", "boundary_slice", {"np": np, "pd": pd})
+    rnd = random.Random(seed)
+    frames = [[0, 1, 2, 2, 2, 3, 4, 5], [0, 0, 0], [1, 1, 2, 3, 3], [5], list(range(6)), [0, 2, 2, 2, 2, 7], [3, 3, 4, 4, 4, 4, 5, 5]]
+    for _ in range(40 if tier == "quick" else 400):
+        frames.append(sorted(rnd.choice(range(8)) for _ in range(rnd.randrange(1, 10))))
+    for idx in frames:
+        df = pd.DataFrame({"v": np.arange(len(idx))}, index=idx)
+        for lo in range(-1, 9):
+            for hi in range(lo, 9):
+                for rb in (False, True):
+                    for lb in (True, False):
+                        cases += 1
+                        want = [v for v, i in zip(range(len(idx)), idx) if ((lo <= i) if lb else (lo < i)) and ((i <= hi) if rb else (i < hi))]
+                        try:
+                            got = bslice(df, lo, hi, rb, lb)["v"].tolist()
+                            msg = None if got == want else f"boundary_slice(index {idx}, {lo}, {hi}, right_boundary={rb}, left_boundary={lb}) keeps rows {got}, the rows in that range are {want}"
+                        except Exception as e:  # noqa
+                            msg = f"{type(e).__name__}: {e}"
+                        if msg and len(fails) < 8:
+                            fails.append(rtc.Failure("boundary_slice", {"index": idx, "start": lo, "stop": hi, "right_boundary": rb, "left_boundary": lb}, "ensures", "C44-rows-and-order", msg))
+    return _rep("dask/dataframe/core.py:split_evenly, dask/dataframe/methods.py:boundary_slice (extracted source on pandas frames; bounded only)",
+                {"split_evenly": "lengths 0..69 + 6 larger x k 1..40 (quick) / 63", "boundary_slice": f"{len(frames)} sorted indexes with duplicates x all (start, stop) in -1..8 x right/left boundary flags"}, cases, fails, t0,
+                {"n": 15, "k": 11})
